@@ -33,8 +33,9 @@ CLAIMS = {
              "horizontal and vertical splits tile, whole-pixel offsets shift, and counts lie between the strictly-inside and "
              "inside-or-on-edge geometric counts; models of the formerly defective walker (stale error term, exact start "
              "state, whole-slope back step) and of wrong initial error / correction tests are rejected.  Against the "
-             "implementation: walker structs after pixman_edge_init/step/line_fixed_edge_init and sample rows (incl. both "
-             "ends of the 16.16 range) are validated field by field; images produced by rasterize_trapezoid / "
+             "implementation: after pixman_edge_init/step/line_fixed_edge_init the edge abscissa x must be the specification's "
+             "(the internal error-term representation is tracked and only reported as a policy note), sample rows (incl. "
+             "both ends of the 16.16 range) must be the grid's; images produced by rasterize_trapezoid / "
              "add_trapezoids / add_traps / add_triangles on a1/a4/a8 (tie-forcing lattices, lines through sample points, "
              "far end points, sub-pixel and degenerate shapes, offsets, pre-filled targets) must equal before (+) Coverage "
              "with nothing written outside the pixels; abutting pairs vs union (horizontal cut, shared edge, staggered), "
